@@ -419,7 +419,9 @@ class WorkerPool:
         with self._lock:
             self._active -= 1
 
-            if self._closed:
+            # max_idle == 0 keeps no idle workers at all: there is nothing to evict
+            # to make room, so the returned worker is discarded like on a closed pool.
+            if self._closed or self._max_idle == 0:
                 self._discards += 1
                 transport.close()
                 return
